@@ -33,6 +33,31 @@ def _host_state_programs():
     ][:-1]
 
 
+def _equalish_sessions(rng):
+    """the same function applied, in one process, to arguments the host considers equal (and hashes alike) but the
+    language distinguishes: 0.0 / −0.0 / 0 / 0+0i / −0.0+0i, 1 / 1.0 / 1+0i — in both orders. A cache keyed by
+    host equality anywhere in the interpreter would make the later result depend on the earlier call."""
+    Z, NZ, ONE = "(ㄱ ㅅㅅㅎㄴ)", "(ㄱ ㅅㅅㅎㄴ ㄴㄱ ㄱㅎㄷ)", "(ㄴ ㅅㅅㅎㄴ)"
+    args = [Z, NZ, "ㄱ", f"({Z} {Z} ㅂㅅㅎㄷ)", f"({NZ} {Z} ㅂㅅㅎㄷ)", f"({Z} {NZ} ㅂㅅㅎㄷ)", "ㄴ", ONE, f"({ONE} {Z} ㅂㅅㅎㄷ)", "ㄴㄱ", f"({ONE} ㄴㄱ ㄱㅎㄷ)"]
+    unary = [f"(ㅂ ㅅ {n} ㅂㅎㄹ)" for n in ("ㅅㄴ", "ㄴㅅ", "ㄱㅅ", "ㅅㄱ", "ㄷㄴ", "ㄴㄷ", "ㄹㄱ", "ㅈㄷ", "ㄴㄴ", "ㅁㄴ")] + \
+            [f"(ㅂ ㅅ ㅂㄹ {n} ㅂㅎㅁ)" for n in "ㄱㄴㄷㄹㅁ"] + ["ㅁㅈ", "ㅅㅅ", "ㅈㅅ", "(ㅂ ㅂㄷ ㅂ ㅂㅎㄹ)"]
+    binary = ["(ㅂ ㅅ ㄴㄷ ㅂㅎㄹ)", "(ㅂ ㅅ ㄱ ㅂㅎㄹ)", "ㄷ", "ㄱ", "ㅅ", "ㄴ", "ㅈ", "ㄴㄴ", "ㄴㅁ", "ㅂㅅ"]
+    out = []
+    for f in unary:
+        progs = [f"{a} {f} ㅎㄴ" for a in args]
+        out.append(progs)
+        out.append(list(reversed(progs)))
+        sh = progs[:]
+        rng.shuffle(sh)
+        out.append(sh)
+    for f in binary:
+        prs = [(a, b) for a in args[:6] for b in (args[0], args[1], args[9])]
+        progs = [f"{a} {b} {f} ㅎㄷ" for a, b in prs]
+        out.append(progs)
+        out.append(list(reversed(progs)))
+    return out
+
+
 SESSION_SCRIPT = r'''
 # Runs sessions in pristine processes: this parent process only imports the interpreter and never
 # evaluates anything; every stand-alone run and every session runs in its own forked child, so that
@@ -162,7 +187,7 @@ def cases(rng, tier):
     sp = SPECIAL + _host_state_programs()
     pairs = [[p1, q] for p1 in sp for q in sp]
     B = 24
-    for tag, ss in (('session', sessions), ('pair', pairs)):
+    for tag, ss in (('session', sessions), ('pair', pairs), ('equalish', _equalish_sessions(rng))):
         for i in range(0, len(ss), B):
             yield Case(program=ss[i][0], fs=FS, stdin="in1\nin2\n", tag=tag, monitor='c20_session', data=ss[i:i + B],
                        skip_model=True, timeout=900)
@@ -186,7 +211,7 @@ SPEC = {
     'lean': ['C20'],
     'cases': cases,
     'stream': 'C20 session stream',
-    'rule': 'all ordered pairs of the special and host-state programs, and sessions of 2–15 programs (with repetitions and shuffles) drawn from a pool of imports (by literal, by path, '
+    'rule': 'all ordered pairs of the special and host-state programs, equalish sessions (each numeric built-in / math / bitwise function applied in one process to host-equal but language-distinct arguments: ±0.0, 0, ±0.0±0.0i, 1, 1.0, −1, in forward, reverse and shuffled order), and sessions of 2–15 programs (with repetitions and shuffles) drawn from a pool of imports (by literal, by path, '
             'nested, failing, self-importing a failing module), stack-limit aborts, I/O, dictionaries, built-in modules, '
             'programs that depend on process-wide host settings (printing / ㅁㅈ / ㅈㅅ of integers beyond 4300 digits, relative file paths after imports from sub-directories), random typed and ill-typed programs, all evaluated in one process without resetting anything: every outcome '
             '(result, exception, stdout, consumed stdin) must equal the stand-alone outcome, which in turn must equal the '
